@@ -366,7 +366,11 @@ def jobs(tier):
                 a[-3], a[-2], a[-1] = Arg("oid_sel", 1, 1), Arg("oid_sel2", 4, 4), Arg("len_sel", 2, 2)
                 out.append(Job(f"msg-{kind}-bulkget-max-repetitions", make_message_harness(kind, op), a,
                                timeout=400 if quick else 1200, mode="T", functions=mf))
-            for rname, rr in (("i32", I32), ("big", BIG)):
+            ranges = [("i32", I32), ("big", BIG)]
+            if op == "bulkget":
+                # (the GETBULK framing forks more often: split the id range so that the halves run in parallel)
+                ranges = [("i32neg", (-2 ** 31, -1)), ("i32pos", (0, 2 ** 31 - 1)), ("big", BIG)]
+            for rname, rr in ranges:
                 if rname == "big" and (quick and op not in ("get", "bulkget")):
                     continue
                 a = margs(rid=rr, m=m, num=(-130, -130), oid2=False, lens=False)
